@@ -397,6 +397,21 @@ known("KF-C09-07", "C09", SB, r"(struct|arrayN|slice|ptr\d>.*|map\[.*)", r"verdi
 known("KF-C09-R12", "C09", SB, None, r"verdict:stream-ok-buffer-err", r"relax=stream:nul-skipped-unmodelled",
       'Decoder accepts "{\\n\\x00a.b\\":{}}" (NUL where the opening quote of a key should be)', "see KF-C05-05: NUL bytes are stepped over by several stream scanners in ways the recogniser's relaxation does not reproduce exactly", "other stream-only acceptances of texts with an embedded NUL", "sentinel design")
 
+# ------------------------------------------------------------------ C19
+PJ = "projection"
+known("KF-C19-01", "C19", PJ, None, r"projection-mismatch", r"via:(slice|array|map|top-level-container):(extra-members|other-members|missing-members|missing-promoted-members)",
+      'query [Sl[X]] on QOuter: the elements of Sl keep all their members (sub-queries are not applied through slices, arrays, maps or a top-level container)', "internal/encoder/code.go SliceCode/ArrayCode/MapCode.Filter return the code unchanged",
+      "any other projection difference located below a slice, array or map", "Filter would have to rebuild element codes")
+known("KF-C19-02", "C19", PJ, None, r"projection-mismatch", r"via:recursive-(ptr|slice|map|struct|array):(extra-members|other-members|missing-members|missing-promoted-members)",
+      'query [A,Rec[b]] on QOuter: the inner level is filtered with the outer field set', "internal/encoder/compiler.go: recursive struct types jump back into the already filtered outer program",
+      "any other projection difference below a recursive member", "recursive code is shared per type, not per query position")
+known("KF-C19-03", "C19", PJ, None, r"projection-mismatch", r"via:iface(-member)?:(extra-members|other-members|missing-members|missing-promoted-members)",
+      'query [If[P,X]] with If holding *QInner{X:29}: output {} instead of {"X":29}', "internal/encoder/vm OpInterface with FieldQueryOption: the query is applied to the dynamic value with the wrong program (pointer dynamic types, maps)",
+      "any other projection difference below an interface member", "interface ops compile the dynamic type at run time with the context query")
+known("KF-C19-04", "C19", PJ, None, r"projection-mismatch", r"direct:[A-Za-z]+>[a-z>-]*:missing-promoted-members",
+      'query [P] on QOuter (P promoted from the embedded QLeaf) selects nothing', "internal/encoder/code.go StructCode.Filter matches the keys of the struct's own fields; promoted fields live in a nested anonymous StructCode",
+      "other missing promoted members", "Filter would have to descend into anonymous fields")
+
 json.dump({"comment": "generated by tools/gen_known.py; never written at check time", "findings": F},
           open(os.path.join(os.path.dirname(os.path.abspath(__file__)), "..", "known_findings.json"), "w"), indent=1, ensure_ascii=False)
 print(len(F), "entries")
